@@ -93,6 +93,23 @@ def split_16(r, probs, name):
     st = stores(r)
     al = aliases(r)
     if 0 not in st or 1 not in st:
+        # the same split written as a constructor: bytearray((hi, lo)) / bytearray([hi, lo]) / bytearray(divmod(x, 256)),
+        # or delegated to encode16Int (which is checked on its own)
+        for x in ast.walk(r.node):
+            if isinstance(x, ast.Call) and isinstance(x.func, ast.Name) and x.func.id == "bytearray" and len(x.args) == 1 and not x.keywords:
+                a = x.args[0]
+                if isinstance(a, (ast.Tuple, ast.List)) and len(a.elts) == 2:
+                    st = {0: (a.elts[0], "<ctor>", x), 1: (a.elts[1], "<ctor>", x)}
+                elif isinstance(a, ast.Call) and isinstance(a.func, ast.Name) and a.func.id == "divmod" and len(a.args) == 2:
+                    ok, k = r.fold(a.args[1])
+                    if ok:
+                        al = dict(al)
+                        al["<dm-hi>"], al["<dm-lo>"] = ("hi", k), ("lo", k)
+                        st = {0: (ast.Name(id="<dm-hi>", ctx=ast.Load()), "<ctor>", x), 1: (ast.Name(id="<dm-lo>", ctx=ast.Load()), "<ctor>", x)}
+        if (0 not in st or 1 not in st) and name != "encode16Int" and any(
+                isinstance(x, ast.Call) and isinstance(x.func, ast.Name) and x.func.id == "encode16Int" for x in ast.walk(r.node)):
+            return 256
+    if 0 not in st or 1 not in st:
         raise AnalysisError("%s: the two byte stores of the 16-bit prefix are not recognisable" % name)
 
     def role(expr):
@@ -121,13 +138,29 @@ def split_16(r, probs, name):
 def join_16(r, probs, name, expr):
     """encoded[0]*256 + encoded[1] (or << 8, |): returns True if recognised."""
     parts = []
+    # locals that merely name a byte of the argument: hi, lo = enc[0], enc[1] / hi = enc[0]
+    names = {}
+    for x in ast.walk(r.node):
+        if isinstance(x, ast.Assign) and len(x.targets) == 1:
+            t, v = x.targets[0], x.value
+            if isinstance(t, ast.Tuple) and isinstance(v, ast.Tuple) and len(t.elts) == len(v.elts):
+                for a, b in zip(t.elts, v.elts):
+                    if isinstance(a, ast.Name) and isinstance(b, ast.Subscript):
+                        names[a.id] = b
+            elif isinstance(t, ast.Name) and isinstance(v, ast.Subscript) and not isinstance(v.slice, ast.Slice):
+                names[t.id] = v
+
+    def deref(e):
+        return names[e.id] if isinstance(e, ast.Name) and e.id in names else e
 
     def flat(e):
         if isinstance(e, ast.BinOp) and isinstance(e.op, (ast.Add, ast.BitOr)):
             flat(e.left)
             flat(e.right)
+        elif isinstance(e, ast.BinOp) and isinstance(e.op, (ast.Mult, ast.LShift)):
+            parts.append(ast.BinOp(left=deref(e.left), op=e.op, right=deref(e.right)))
         else:
-            parts.append(e)
+            parts.append(deref(e))
     flat(expr)
     hi = lo = None
     for p in parts:
@@ -168,7 +201,10 @@ def check_primitives(prog):
     split_16(r, probs, "encode16Int")
     sizes = [x for x in ast.walk(r.node) if isinstance(x, ast.Call) and isinstance(x.func, ast.Name) and x.func.id == "bytearray" and x.args]
     oks = [r.fold(x.args[0]) for x in sizes]
-    if not any(ok and v == 2 for ok, v in oks):
+    # (a bytearray built from the two parts range-checks them just as item assignment does)
+    ctor2 = any(isinstance(x.args[0], (ast.Tuple, ast.List)) and len(x.args[0].elts) == 2 or
+                (isinstance(x.args[0], ast.Call) and isinstance(x.args[0].func, ast.Name) and x.args[0].func.id == "divmod") for x in sizes)
+    if not any(ok and v == 2 for ok, v in oks) and not ctor2:
         probs.append(Problem("L1", "encode16Int", "width", "the 16-bit integer is not stored into a 2-byte bytearray (item assignment is the range check)", r.node))
     r = Roles(prog, mod, mod.funcs["decode16Int"])
     rets = [x for x in ast.walk(r.node) if isinstance(x, ast.Return)]
@@ -180,6 +216,7 @@ def check_primitives(prog):
     split_16(r, probs, "encodeString")
     # prefix width: bytearray(W) and len(encoded) - W
     W = None
+    buf = None
     for x in ast.walk(r.node):
         if isinstance(x, ast.Assign) and isinstance(x.value, ast.Call) and isinstance(x.value.func, ast.Name) and x.value.func.id == "bytearray" \
                 and len(x.value.args) == 1 and not x.value.keywords:
@@ -189,6 +226,28 @@ def check_primitives(prog):
                 buf = U(x.targets[0])
     enc_text = [x for x in ast.walk(r.node) if isinstance(x, ast.Call) and isinstance(x.func, ast.Name) and x.func.id == "bytearray"
                 and (len(x.args) > 1 or x.keywords)]
+    body_first = None
+    if W is None and enc_text:
+        # the other order: the text is converted first (body = bytearray(text, 'utf-8')), measured with len(body), and appended
+        # to a prefix built from the two parts of that length (a 2-element constructor, or encode16Int)
+        for x in ast.walk(r.node):
+            if isinstance(x, ast.Assign) and x.value is enc_text[0] and len(x.targets) == 1 and isinstance(x.targets[0], ast.Name):
+                body_first = x.targets[0].id
+        two = any(isinstance(x, ast.Call) and isinstance(x.func, ast.Name) and (
+            (x.func.id == "bytearray" and len(x.args) == 1 and isinstance(x.args[0], (ast.Tuple, ast.List)) and len(x.args[0].elts) == 2)
+            or x.func.id == "encode16Int") for x in ast.walk(r.node))
+        if body_first is not None and two:
+            W = 2
+            appended = []
+            for x in ast.walk(r.node):
+                if isinstance(x, ast.AugAssign) and isinstance(x.op, ast.Add):
+                    appended.append(x.value)
+                if isinstance(x, ast.Call) and isinstance(x.func, ast.Attribute) and x.func.attr == "extend" and x.args:
+                    appended.append(x.args[0])
+                if isinstance(x, ast.Return) and isinstance(x.value, ast.BinOp) and isinstance(x.value.op, ast.Add):
+                    appended.append(x.value.right)
+            if not any(isinstance(a, ast.Name) and a.id == body_first for a in appended):
+                probs.append(Problem("L5", "encodeString", "prefix", "the bytes appended after the prefix are not the converted text that was measured", r.node))
     if W is None or not enc_text:
         raise AnalysisError("encodeString: prefix buffer / text conversion not recognisable")
     encoding = None
@@ -208,7 +267,7 @@ def check_primitives(prog):
     lname = None
     for x in lens:
         v = x.value
-        if isinstance(v, ast.BinOp) and isinstance(v.op, ast.Sub) and isinstance(v.left, ast.Call) and U(v.left.args[0]) == buf:
+        if isinstance(v, ast.BinOp) and isinstance(v.op, ast.Sub) and isinstance(v.left, ast.Call) and buf is not None and U(v.left.args[0]) == buf:
             ok, k = r.fold(v.right)
             if ok and k == W:
                 measured_ok = True
@@ -223,7 +282,7 @@ def check_primitives(prog):
                 probs.append(Problem("L5", "encodeString", "prefix", "the length prefix counts characters (len(%s)), not the UTF-8 bytes that follow it" % arg.id, x))
                 measured_ok = True
                 lname = U(x.targets[0])
-            else:
+            elif body_first is None or (isinstance(arg, ast.Name) and arg.id == body_first):
                 measured_ok = True
                 lname = U(x.targets[0])
     if not measured_ok:
@@ -251,11 +310,45 @@ def check_primitives(prog):
         facts["string_exc"] = cq
     # ---- decodeString ----
     r = Roles(prog, mod, mod.funcs["decodeString"])
-    asg = [x for x in ast.walk(r.node) if isinstance(x, ast.Assign) and isinstance(x.targets[0], ast.Name)]
-    if not asg:
+    asg = [x for x in r.node.body if isinstance(x, ast.Assign) and isinstance(x.targets[0], ast.Name)]
+    if not asg and not any(isinstance(x, ast.Call) and isinstance(x.func, ast.Name) and x.func.id == "decode16Int" for x in ast.walk(r.node)):
         raise AnalysisError("decodeString: length computation not recognisable")
-    join_16(r, probs, "decodeString", asg[0].value)
-    ln = asg[0].targets[0].id
+    # the length: a 16-bit join of bytes 0 and 1 of the argument, or decode16Int(argument) (checked on its own); a local may
+    # already hold a position derived from it (end = 2 + length)
+    LEN = "<length>"
+    pos = {}          # local name -> (constant, uses the length)
+
+    def is_len_expr(e):
+        if isinstance(e, ast.Call) and isinstance(e.func, ast.Name) and e.func.id == "decode16Int" and len(e.args) == 1 \
+                and isinstance(e.args[0], ast.Name) and e.args[0].id in r.params:
+            return True
+        return False
+
+    def lin0(e):
+        ok, v = r.fold(e)
+        if ok and isinstance(v, int):
+            return (v, False)
+        if is_len_expr(e):
+            return (0, True)
+        if isinstance(e, ast.Name) and e.id in pos:
+            return pos[e.id]
+        if isinstance(e, ast.BinOp) and isinstance(e.op, ast.Add):
+            a, b = lin0(e.left), lin0(e.right)
+            if a is None or b is None:
+                return None
+            return (a[0] + b[0], a[1] or b[1])
+        return None
+    joined = False
+    for x in asg:
+        v = lin0(x.value)
+        if v is not None and v[1]:
+            pos[x.targets[0].id] = v
+            joined = True
+        elif not joined:
+            join_16(r, probs, "decodeString", x.value)
+            pos[x.targets[0].id] = (0, True)
+            joined = True
+    ln = LEN
     rets = [x for x in ast.walk(r.node) if isinstance(x, ast.Return)]
     if len(rets) != 1 or not isinstance(rets[0].value, ast.Tuple) or len(rets[0].value.elts) != 2:
         raise AnalysisError("decodeString: return not recognisable")
@@ -269,15 +362,10 @@ def check_primitives(prog):
         """(const, uses length?)"""
         if e is None:
             return (0, False)
-        ok, v = r.fold(e)
-        if ok:
-            return (v, False)
-        if isinstance(e, ast.Name) and e.id == ln:
-            return (0, True)
-        if isinstance(e, ast.BinOp) and isinstance(e.op, ast.Add):
-            a, b = lin(e.left), lin(e.right)
-            return (a[0] + b[0], a[1] or b[1])
-        raise AnalysisError("decodeString: slice bound %s not understood" % U(e))
+        v = lin0(e)
+        if v is None:
+            raise AnalysisError("decodeString: slice bound %s not understood" % U(e))
+        return v
     lo, hi, rl = lin(bs.lower), lin(bs.upper), lin(rs_.lower)
     if lo != (2, False) or hi != (2, True):
         probs.append(Problem("L1", "decodeString", "body-slice", "the string body is taken from [%s:%s], must be [2:2+length]" % (U(bs.lower) if bs.lower else "", U(bs.upper) if bs.upper else ""), rets[0]))
@@ -343,6 +431,16 @@ def check_primitives(prog):
     r = Roles(prog, mod, mod.funcs["decodeLength"])
     masks = sorted({v for v, n in r.consts(ast.BitAnd)})
     steps = [v for v, n in r.consts(ast.Mult) if isinstance(n, ast.AugAssign)] + [1 << v for v, n in r.consts(ast.LShift) if isinstance(n, ast.AugAssign)]
+    shift_form = False
+    if not steps:
+        # the same weights written with a shift counter: value += (digit & 0x7F) << shift ... shift += 7
+        shifters = {U(x.right) for x in ast.walk(r.node) if isinstance(x, ast.BinOp) and isinstance(x.op, ast.LShift) and isinstance(x.right, ast.Name)}
+        for x in ast.walk(r.node):
+            if isinstance(x, ast.AugAssign) and isinstance(x.op, ast.Add) and U(x.target) in shifters:
+                ok, k = r.fold(x.value)
+                if ok and isinstance(k, int) and 0 < k < 32:
+                    steps.append(1 << k)
+                    shift_form = True
     if len(masks) < 1 or not steps:
         raise AnalysisError("decodeLength: masks / multiplier step not recognisable")
     value_mask = min(masks)
@@ -353,7 +451,7 @@ def check_primitives(prog):
             dl["mask"], dl["step"], dl["test"]), r.node))
     # the break test: stop when the continuation bit is clear
     for x in ast.walk(r.node):
-        if isinstance(x, ast.If) and any(isinstance(y, ast.Break) for y in x.body):
+        if isinstance(x, ast.If) and any(isinstance(y, (ast.Break, ast.Return)) for y in x.body):
             t = x.test
             okb = False
             if isinstance(t, ast.Compare) and len(t.ops) == 1:
@@ -366,8 +464,18 @@ def check_primitives(prog):
             if not okb:
                 probs.append(Problem("L1", "decodeLength", "stop-test", "decoding stops on `%s`; it must stop exactly when the continuation bit is clear" % U(t), x))
     # additive accumulation with a multiplier that starts at 1, value at 0
-    acc = [x for x in ast.walk(r.node) if isinstance(x, ast.AugAssign) and isinstance(x.op, ast.Add)]
+    acc = [x for x in ast.walk(r.node) if isinstance(x, ast.AugAssign) and isinstance(x.op, ast.Add)
+           and any(isinstance(y, ast.BinOp) and isinstance(y.op, ast.BitAnd) for y in ast.walk(x.value))]
     plain = [x for x in ast.walk(r.node) if isinstance(x, ast.For)]
+    # a digit is accumulated with the weight of its own position: the weight advances after the accumulation, in the same iteration
+    if plain and acc:
+        lb = list(plain[0].body)
+        adv = [i for i, x in enumerate(lb) if isinstance(x, ast.AugAssign) and (
+            isinstance(x.op, (ast.Mult, ast.LShift)) or (shift_form and isinstance(x.op, ast.Add) and x not in acc))]
+        ai = [i for i, x in enumerate(lb) if x in acc]
+        if adv and ai and min(adv) < min(ai):
+            probs.append(Problem("L1", "decodeLength", "accumulate", "the weight is advanced before the digit is accumulated: the first digit is "
+                                 "weighted %d instead of 1" % steps[0], lb[min(adv)]))
     if not acc:
         probs.append(Problem("L1", "decodeLength", "accumulate", "digits are not accumulated additively (value += digit * multiplier)", r.node))
     inits = {}
@@ -376,7 +484,7 @@ def check_primitives(prog):
             ok, v = r.fold(x.value)
             if ok:
                 inits[x.targets[0].id] = v
-    if sorted(inits.values()) != [0, 1]:
+    if sorted(inits.values()) != ([0, 0] if shift_form else [0, 1]):
         probs.append(Problem("L1", "decodeLength", "init", "accumulator and multiplier must start at 0 and 1 (found %s)" % inits, r.node))
     # guards that reject: a bound on the multiplier must admit every legal 4-byte length
     loop = plain[0] if plain else None
